@@ -61,6 +61,11 @@ def pair_oracle(A, B, conv, passive):
     tol = 1e-5 * max(1.0, np.abs(TA).max(), np.abs(TB).max())
     same = np.allclose(TA, TB, atol=1e-9)
     aligned = np.allclose(np.abs(RA.T @ RB), np.eye(3), atol=1e-9)
+    if not aligned and A.degeneracy == 2 and B.degeneracy == 2:
+        # both axially symmetric with the unique value sorted last: aligned when the symmetry axes coincide
+        ka_, kb_ = unique_axis(A.eigenvalues), unique_axis(B.eigenvalues)
+        if ka_ == 2 and kb_ == 2 and abs(abs(float(RA[:, 2] @ RB[:, 2])) - 1) < 1e-9:
+            aligned = True
     if same or aligned:
         # identical or perfectly aligned: zero angles (or at least angles that act as a flip)
         M = M_of(ang, conv, passive)
@@ -123,7 +128,7 @@ def run(ctx):
     c01 = __import__("harness.c01", fromlist=["regen"])
     rng = ctx.rng
     quick = ctx.tier == "quick"
-    ctx.rule = ("generated 16-row tables vs the Python function on angle triples k*pi/12 x passive; ordered pairs from {generic, axial}^2 plus identical, aligned, mirrored (B = S A S^T, S a Cartesian mirror / two-fold axis) and rotated-copy pairs x "
+    ctx.rule = ("generated 16-row tables vs the Python function on angle triples k*pi/12 x passive; ordered pairs from {generic, axial}^2 plus identical, aligned, axial pairs sharing their symmetry axis, mirrored (B = S A S^T, S a Cartesian mirror / two-fold axis) and rotated-copy pairs x "
                 "4 orders x {zyz, zxz} x {active, passive}: double-coset relation for generic pairs (all 17 angle sets), zero / flip for identical and aligned, the "
                 "component along the symmetry axis when a partner is axially symmetric")
     ctx.trusted += ["py2v nmr_utils translator (shared with C01/C02/C08); scipy Rotation is an oracle", "_tryallanglestest / _compute_rotation (the search over equivalent "
@@ -151,7 +156,7 @@ def run(ctx):
     NP = 40 if quick else 1000
     for t in range(NP):
         ka, kb = [("generic", "generic"), ("axial", "generic"), ("generic", "axial"), ("axial", "axial"), ("identical", ""), ("aligned", ""),
-                  ("mirror", ""), ("copy", "")][t % 8]
+                  ("mirror", ""), ("copy", ""), ("axial-aligned", "")][t % 9]
         for order in ("i", "d", "h", "n"):
             if ka == "identical":
                 A, evA, RA_ = mk_tensor(rng, "generic", order)
@@ -161,6 +166,15 @@ def run(ctx):
                 A, evA, RA_ = mk_tensor(rng, rng.choice(["generic", "generic", "axial"]), order)
                 S = np.diag(rng.choice([(1, 1, -1), (1, -1, 1), (-1, 1, 1), (-1, -1, 1), (1, -1, -1), (-1, 1, -1)])) if ka == "mirror" else rand_rot(rng)
                 TB_ = S @ np.array(A._symm) @ S.T
+                B = NMRTensor((TB_ + TB_.T) / 2, order=order)
+            elif ka == "axial-aligned":
+                # two axially symmetric tensors sharing the symmetry axis (different principal values, one turned about the common axis)
+                A, evA, RA_ = mk_tensor(rng, "axial", order)
+                a2 = rng.uniform(-8, 8)
+                evB_ = [a2, a2, a2 + (1 if evA[2] > evA[0] else -1) * rng.uniform(1, 5)]
+                from scipy.spatial.transform import Rotation as _Rot
+                Rk = _Rot.from_rotvec(rng.uniform(0, 3) * np.array([0.0, 0.0, 1.0])).as_matrix()
+                TB_ = RA_ @ Rk @ np.diag(evB_) @ Rk.T @ RA_.T
                 B = NMRTensor((TB_ + TB_.T) / 2, order=order)
             elif ka == "aligned":
                 A, evA, RA_ = mk_tensor(rng, "generic", order)
